@@ -175,51 +175,7 @@ def _find_while(f):
     return ws
 
 
-def _always_exits(body):
-    return bool(body) and isinstance(body[-1], (ast.Continue, ast.Break, ast.Return, ast.Raise))
-
-
-def _atomise(test, pol):
-    """split a guard into atomic (test, polarity) facts: not X | A and B (taken) | A or B (not taken)"""
-    if isinstance(test, ast.UnaryOp) and isinstance(test.op, ast.Not):
-        return _atomise(test.operand, not pol)
-    if isinstance(test, ast.BoolOp) and ((isinstance(test.op, ast.And) and pol) or (isinstance(test.op, ast.Or) and not pol)):
-        out = []
-        for v in test.values:
-            out.extend(_atomise(v, pol))
-        return out
-    return [(test, pol)]
-
-
-def _guard_chain(pm, node, stop):
-    """[(test_node, polarity)] of the conditions under which ``node`` runs inside ``stop``: the enclosing if-statements and the guard
-    clauses before it (`if T: ...; continue/break/return` with no else leaves `not T` for the rest of the block), split into
-    atomic facts, outermost first.  Both styles of writing the same traversal give the same chain."""
-    chain = []
-    cur = node
-    while cur is not stop and cur in pm:
-        par = pm[cur]
-        here = []
-        for fld in ("body", "orelse"):
-            blk = getattr(par, fld, None)
-            if isinstance(blk, list) and cur in blk:
-                for prev in blk[:blk.index(cur)]:
-                    if isinstance(prev, ast.If) and not prev.orelse and _always_exits(prev.body):
-                        here.extend(_atomise(prev.test, False))
-                    elif isinstance(prev, ast.If) and prev.orelse and _always_exits(prev.orelse) and not _always_exits(prev.body):
-                        here.extend(_atomise(prev.test, True))
-        if isinstance(par, ast.If):
-            if cur in par.body:
-                chain.append(_atomise(par.test, True) + here)
-            elif cur in par.orelse:
-                chain.append(_atomise(par.test, False) + here)
-            else:
-                chain.append(here)
-        else:
-            chain.append(here)
-        cur = par
-    chain.reverse()
-    return [x for grp in chain for x in grp]
+from ..core.astutil import guard_chain as _guard_chain, atomise as _atomise, resolved      # noqa: E402
 
 
 def _stack_pushes(loop, stackname):
@@ -316,14 +272,14 @@ def r_traverse(idx, rep):
     pm = parent_map(f.node)
     # aliases: node_aabb = aabbs[node_index]
     aliases = {}
-    for st in loop.body:
+    for st in iter_stmts(loop.body):
         if isinstance(st, ast.Assign) and len(st.targets) == 1 and isinstance(st.targets[0], ast.Name):
             aliases[st.targets[0].id] = u(st.value)
     # result list: the one returned
     resname = None
     for st in iter_stmts(f.node.body):
         if isinstance(st, ast.Return) and st.value is not None:
-            for n in ast.walk(st.value):
+            for n in ast.walk(resolved(f.node, st.value)):
                 if isinstance(n, ast.Name) and n.id not in ("np", "numpy"):
                     resname = n.id
     pushes = _stack_pushes(loop, stackname)
@@ -935,17 +891,31 @@ def _guarded_in_function(f, loop, root, nodevar, C):
         if isinstance(st, ast.If) and _is_sentinel_test(st.test, C, [root]) and not _sentinel_polarity(st.test, C):
             if any(root in u(s) for s in st.body):
                 return True
-    # 3. in-loop guard on the popped variable before its first use as an index
-    for st in loop.body:
-        if isinstance(st, ast.If) and nodevar and _is_sentinel_test(st.test, C, [nodevar]) and _sentinel_polarity(st.test, C):
-            if any(isinstance(s, (ast.Continue, ast.Break, ast.Return)) for s in st.body):
-                return True
-        # first use as index?
-        uses = [n for n in ast.walk(st) if isinstance(n, ast.Subscript) and nodevar and nodevar in
-                {x.id for x in ast.walk(n.slice) if isinstance(x, ast.Name)}]
-        if uses:
+    # 3. every use of the popped variable as an index is dominated by a test that excludes the sentinel (enclosing if, or a guard clause
+    #    in front of it — both are part of the guard chain)
+    if not nodevar:
+        return False
+    pm = parent_map(f.node)
+    uses = []
+    for st in iter_stmts(loop.body):
+        if isinstance(st, (ast.If, ast.For, ast.While)):
+            exprs = [st.test] if isinstance(st, (ast.If, ast.While)) else [st.iter]
+        else:
+            exprs = [st]
+        for e in exprs:
+            if any(isinstance(n, ast.Subscript) and nodevar in {x.id for x in ast.walk(n.slice) if isinstance(x, ast.Name)} for n in ast.walk(e)):
+                uses.append(st)
+    if not uses:
+        return True
+    for st in uses:
+        chain = _guard_chain(pm, st, loop)
+        if isinstance(st, ast.If):
+            # the test of an if is evaluated under the guards of the if statement itself
+            pass
+        ok = any(_is_sentinel_test(t, C, [nodevar]) and _sentinel_polarity(t, C) != pol for t, pol in chain)
+        if not ok:
             return False
-    return False
+    return True
 
 
 def _all_callers_guard(idx, cls, fname, argpos, C):
